@@ -377,3 +377,23 @@ Definition pstep (id : option nat) (v : val) (s : pstate) (o : pop) : pstate :=
   end.
 
 Definition prun (id : option nat) (v : val) (ops : list pop) : pstate := fold_left (pstep id v) ops pinit.
+
+(* ------------------------------------------------------------------ statwatcher.go *)
+(* watch :37-44 reads the connection state after every WaitForStateChange(ctx, currentState), which (grpc) returns at
+   once when the state already differs from currentState; updateState :46-57 is applied to what was read. *)
+Inductive cstate := SIdle | SConnecting | SReady | SFailure | SShutdown.
+
+Record swatch := mkW {
+  w_disc : bool;          (* disconnected *)
+  w_cur : cstate;         (* currentState: the source state of the next wait *)
+  w_notified : nat        (* how often the listeners (go c.reload(cli)) were run *)
+}.
+
+Definition sw_update (w : swatch) (s : cstate) : swatch :=
+  match s with
+  | SFailure | SShutdown => mkW true s (w_notified w)
+  | SReady => if w_disc w then mkW false s (S (w_notified w)) else mkW false s (w_notified w)
+  | _ => mkW (w_disc w) s (w_notified w)
+  end.
+
+Definition sw_run (w : swatch) (reads : list cstate) : swatch := fold_left sw_update reads w.
